@@ -41,7 +41,6 @@ def _part(ctx, out, rep_acc, violations, counters):
     impl, model, cases = _read(f"{out}/c16.impl"), _read(f"{out}/c16.model"), _read(f"{out}/c16.cases")
     while model and model[-1] == "":
         model.pop()
-    model_panic_lines = set()
     for k in range(max(len(impl), len(model))):
         a = impl[k] if k < len(impl) else None
         b_full = model[k] if k < len(model) else None
@@ -61,8 +60,6 @@ def _part(ctx, out, rep_acc, violations, counters):
         if extra:
             key = f"{b} {extra}"
             counters["stage"][key] = counters["stage"].get(key, 0) + 1
-        if b == "verdict panic":
-            model_panic_lines.add(k)
         # the verifier evaluated a constraint system different from the one the proof was made
         # for, and nothing but the STARK check itself stood in the way
         if k in detail and "stage=crypto airs-changed=1" in extra:
@@ -83,11 +80,16 @@ def _part(ctx, out, rep_acc, violations, counters):
     for v in rep["violations"]:
         cls = v["class"]
         k = by_line.get(json.dumps(v["replay"], sort_keys=True))
-        if cls.startswith("panic:") and k in model_panic_lines:
-            # the model predicts this panic from the one rule "declared width < columns the rebuilt AIR reads"
-            counters["panics_explained"] += 1
-            cls = PANIC_CLASS
-            if counters["panics_explained"] > 2:
+        if cls.startswith("panic:"):
+            # F-C16-1 is fixed (declared preprocessed width is compared with the rebuilt AIR before verify_batch);
+            # the model proves the verifier never panics on metadata (verify_never_panics), so every panic is a
+            # violation again. Panics of the old kind are given the old finding's class so that a return of the
+            # defect is recognisable; known_findings.json lists it as "fixed", which suppresses nothing.
+            counters["panics"] += 1
+            det = str(v.get("detail", ""))
+            if "out of bounds" in det or "out of range" in det or "WindowAccess" in det:
+                cls = PANIC_CLASS
+            if counters["panics"] > 3:
                 continue
         violations.append({"class": cls,
                            "what": f"{v['kind']} {v['class']} {str(v.get('detail', ''))[:120]} case: {v['line'][:100]}",
@@ -129,7 +131,7 @@ def run(ctx):
             jobs.append((f"{work}/run_{cfg}", cmd))
     procs = [(out, cmd, subprocess.Popen(cmd, stdout=subprocess.PIPE, stderr=subprocess.STDOUT)) for out, cmd in jobs]
     rep_acc = {"evaluations": 0, "distinct": 0, "lines": 0, "serde_checks": 0, "samples": [], "corpus": [], "hist": {}}
-    counters = {"disagreements": 0, "diffsys": 0, "panics_explained": 0, "same_width_rejected_structurally": 0, "stage": {}}
+    counters = {"disagreements": 0, "diffsys": 0, "panics": 0, "same_width_rejected_structurally": 0, "stage": {}}
     for out, cmd, p in procs:
         so, _ = p.communicate(timeout=7200)
         if p.returncode != 0 or not os.path.exists(f"{out}/c16.report.json"):
@@ -139,7 +141,7 @@ def run(ctx):
         _part(ctx, out, rep_acc, violations, counters)
     if rep_acc["lines"] == 0:
         return violations, empty
-    disagreements, diffsys, panics_explained = counters["disagreements"], counters["diffsys"], counters["panics_explained"]
+    disagreements, diffsys, panics = counters["disagreements"], counters["diffsys"], counters["panics"]
     stage_hist = counters["stage"]
     rep = {"hist": rep_acc["hist"], "evaluations": rep_acc["evaluations"], "distinct": rep_acc["distinct"], "samples": rep_acc["samples"],
            "serde_checks": rep_acc["serde_checks"], "corpus_witnesses_reproduced": rep_acc["corpus"]}
@@ -160,7 +162,7 @@ def run(ctx):
            "samples": rep["samples"][:6], "input_distribution": hist, "per_field_outcomes_single": field_hist,
            "model_stage_histogram": stage_hist,
            "serde_round_trip_checks": rep.get("serde_checks", 0),
-           "panics_predicted_by_model": panics_explained,
+           "verifier_panics": panics,
            "different_system_reaching_stark_check": diffsys,
            "same_main_width_alterations_rejected_by_permutation_width_check": counters["same_width_rejected_structurally"],
            "traces_validated_against_impl": len(impl), "disagreements_checked": disagreements,
@@ -175,9 +177,10 @@ CHECK = {
     "theorems": [
         "P3R.C16.field_params_bound", "P3R.C16.reduction_verifier_chosen", "P3R.C16.missing_w_unreachable",
         "P3R.C16.table_set_bound", "P3R.C16.accept_iff_crypto", "P3R.C16.irrelevant_fields",
-        "P3R.C16.alu_sig_injective", "P3R.C16.public_sig_injective", "P3R.C16.airs_determined_partial",
+        "P3R.C16.alu_sig_injective", "P3R.C16.public_sig_injective", "P3R.C16.prep_exact_enforced",
+        "P3R.C16.airs_determined", "P3R.C16.verify_never_panics",
         "P3R.C16.no_accept_flip", "P3R.C16.serde_roundtrip",
-        "P3R.Witness.C16.widths_alone_do_not_determine_airs", "P3R.Witness.C16.underdeclared_width_panics",
+        "P3R.Witness.C16.same_main_width_now_rejected", "P3R.Witness.C16.underdeclared_width_rejected",
     ],
     "run": run,
     "trusted_base": [
@@ -192,11 +195,10 @@ CHECK = {
         "verify_all_tables takes the preprocessed commitment from the proof itself (proof.stark_common): binding a proof to a particular "
         "circuit is the caller's comparison of that commitment; public values of "
         "primitive tables are main-trace cells (C04)",
-        "airs_determined_partial: hypothesis PrepExact (declared preprocessed width = width the rebuilt AIR reads) is not enforced by "
-        "the current code (only >=, and through a panic: finding C16-1); without it main width + declared widths do not determine the ALU "
-        "packing (Witness.widths_alone_do_not_determine_airs); the real verify_batch additionally compares the number of packed lookups "
-        "of the rebuilt AIR with the opened permutation row (not modelled), which rejected every same-main-width alteration tried; "
-        "hypothesis on plug-ins: distinct registered plug-ins have distinct (main, preprocessed) widths for all lane counts",
+        "airs_determined: hypothesis on plug-ins only (distinct registered plug-ins have distinct (main, preprocessed) widths for all "
+        "lane counts); PrepExact (declared preprocessed width = width the rebuilt AIR reads) is enforced by verify since the fix of "
+        "F-C16-1 and proved (prep_exact_enforced); the real verify_batch additionally compares the number of packed lookups of the "
+        "rebuilt AIR with the opened permutation row (not modelled)",
         "no_accept_flip: ideal-crypto hypothesis (a body rejected for the system it was produced for is not accepted for that system with "
         "other public values / commitment) - Fiat-Shamir binding of public values and commitment is assumed, exercised on every case",
         "lookup packing (pack_same_bus) and quotient-degree inference are not modelled; matrix_to_instance entries beyond the instance "
@@ -218,11 +220,12 @@ MANIFEST_ENTRY = {
         "category": "proof",
         "text": "accepted => field parameters are the verifier's, reduction is verifier-chosen, every table is registered and in entry order; "
                 "rows / min height / alu_variant / npo_lanes / entry rows / entry variant cannot influence the verdict; (lanes, K) are "
-                "determined by (main, preprocessed) widths; for a fixed proof body at most one AIR list passes the checks provided declared "
-                "preprocessed widths are exact (not enforced today: under-declared widths panic, finding C16-1, witness replayed); decode(encode m) = m; model "
-                "tied to the Rust by line-exact verdict comparison incl. panics, real postcard bytes and real AIR widths",
+                "determined by (main, preprocessed) widths; for a fixed proof body at most one AIR list passes the checks (declared "
+                "preprocessed widths are enforced to be exact); the verifier never panics on metadata; decode(encode m) = m; model "
+                "tied to the Rust by line-exact verdict comparison (a panic of the real verifier is a disagreement and a violation), real "
+                "postcard bytes and real AIR widths",
         "design_ref": "4/C16",
     },
     "level_note": "Lean kernel + 3 standard axioms; STARK/FRI/Fiat-Shamir soundness assumed (parameter); plug-in AIR widths are parameters; "
-                  "one known finding (verifier panics on an under-declared preprocessed width instead of returning an error)",
+                  "F-C16-1 (verifier panic on an under-declared preprocessed width) fixed; its corpus case is a passing regression case",
 }
